@@ -10,6 +10,7 @@ Variables lower upper : str -> str.
 Variable parse_tree : mapper -> tz -> res (option T * mapper * tz).
 Variable set_label : T -> option str -> T.
 Variable add_comments : T -> list str -> T.
+Variable vl : bool.
 Variables va vk : bool.
 
 Hypothesis parse_tree_suf : forall m z ot m' z',
@@ -18,13 +19,13 @@ Hypothesis upper_idem : forall s, upper (upper s) = upper s.
 
 (* the NEXUS iterator run under an arbitrary namespace configuration *)
 Definition nexus_yield (nc : nscfg) (ns0 : list str) (d : doc) : list T * res (core * regs) :=
-  y_items_from_stream T lower upper parse_tree set_label add_comments nc false
+  y_items_from_stream T lower upper parse_tree set_label add_comments vl nc false
                       (doc_fuel d) (core_init nc ns0 d) (regs_init nc).
 
-Notation NR := (nexus_read T lower upper parse_tree set_label add_comments).
+Notation NR := (nexus_read T lower upper parse_tree set_label add_comments vl).
 
 Lemma yield_from_files_nexus : forall ns0 d,
-  yield_from_files T lower upper parse_tree set_label add_comments Nexus ns0 d =
+  yield_from_files T lower upper parse_tree set_label add_comments vl Nexus ns0 d =
   (fst (nexus_yield (c_ns cfg_yield) ns0 d),
    do s <- snd (nexus_yield (c_ns cfg_yield) ns0 d) ;; Ok (nth O (k_nss (fst s)) [])).
 Proof.
@@ -52,10 +53,10 @@ Proof.
   { unfold wf, tls0. destruct tlf; simpl; auto. }
   assert (F0 : flat T tlf tls0 = []).
   { unfold flat, tls0. destruct tlf; reflexivity. }
-  pose proof (stream_agree T lower upper parse_tree set_label add_comments nc tlf false parse_tree_suf upper_idem
+  pose proof (stream_agree T lower upper parse_tree set_label add_comments vl nc tlf false parse_tree_suf upper_idem
                 (doc_fuel d) (core_init nc ns0 d) (regs_init nc) tls0 [] W0) as H.
   specialize (H N).
-  destruct (y_items_from_stream T lower upper parse_tree set_label add_comments nc false
+  destruct (y_items_from_stream T lower upper parse_tree set_label add_comments vl nc false
               (doc_fuel d) (core_init nc ns0 d) (regs_init nc)) as [out r].
   simpl fst in *. simpl snd in *. unfold trees_rel in H.
   destruct r as [[k' g']|e|]; try assumption.
